@@ -305,7 +305,8 @@ class GroupBy:
         codes_list, unique_list = zip(*chunk_results)
 
         if use_monotonic_piece:
-            codes_list = [mono_codes, *codes_list]
+            # same integer type as the other chunks, which may hold the null code -1
+            codes_list = [mono_codes.astype(codes_list[0].dtype), *codes_list]
             unique_list = [mono_uniques, *unique_list]
 
         self._result_index = pd.Index(np.concatenate(unique_list)).drop_duplicates()
